@@ -474,6 +474,7 @@ def main(pid, tier, replay=None):
         # CTBuild.tla's ExpectOK
         from . import p_ct
         p_ct.run(res, "C03", tier)
+        p_ct.deprecated_entry(res, "C03")
     res.assumptions += ["the harness reports faithfully what the public API / hooks return",
                         "TLC evaluates the specification correctly",
                         "bounds: instance families and input lengths as listed under coverage"]
